@@ -649,6 +649,24 @@ func genC10(c *Ctx) {
 		wc.fdrel = true
 	}
 
+	// wide directories: more entries than any plausible read batch (ReadDir chunking must not
+	// change the sorted order), created in shuffled order, with one sub-directory in the middle
+	for _, n := range []int{300, 700} {
+		if n > 300 && !c.Thorough() {
+			continue
+		}
+		var ch []*fnode
+		for i := 0; i < n; i++ {
+			ch = append(ch, reg(fmt.Sprintf("f%05d.txt", i), hello))
+		}
+		ch = append(ch, dir("f00150.d", reg("x", uuid), reg("X", der)))
+		for i := len(ch) - 1; i > 0; i-- {
+			j := c.R.Intn(i + 1)
+			ch[i], ch[j] = ch[j], ch[i]
+		}
+		add(fmt.Sprintf("walk:wide%d", n), []*fnode{dir("d", ch...)}, "-r", "d")
+	}
+
 	// ---- every entry kind at first / middle / last position, directly and one level down ----
 	kinds := []struct {
 		tag string
